@@ -120,7 +120,16 @@ def generate(rng, tier):
         for c in extra:
             if rng.random() < 0.25:
                 init.append(list(c))
-        case.update({"mode": "custom", "demands": demands, "universe": units + extra, "initial": init,
+        uni = units + extra
+        if rng.random() < 0.12 and m >= 2:
+            # an explicit column pool that cannot produce some demanded item at all: no plan exists
+            z = rng.randrange(m)
+            demands[z] = max(1, demands[z])
+            uni = [c for c in uni if c[z] == 0]
+            init = [c for c in init if c[z] == 0]
+            if not init or not uni:
+                uni, init = units + extra, [list(u) for u in units]
+        case.update({"mode": "custom", "demands": demands, "universe": uni, "initial": init,
                      "peer": rng.choice(["best", "best", "first_improving", "worst_improving"])})
     case["max_nodes"] = rng.choice([50, 200]) if case["solver"] == "bp" else None
     case["max_iter"] = rng.choice([None, None, 20, 100])
@@ -213,6 +222,11 @@ def judge(case, v, o: Outcome, label, opt, faulted, fault_kind):
         o.probe("step_budget_skip")
         return
     if v["exc"] is not None:
+        if opt is None:
+            # no plan exists: raising presents no plan, so the statement is not touched (solve_cg's custom mode raises
+            # OverflowError from ceil(inf) here on the current tree)
+            o.probe("exception_on_uncoverable_pool")
+            return
         o.violate(PROP, f"exception:{type(v['exc']).__name__}", f"{label}: {solver} raised {type(v['exc']).__name__}: {v['exc']}", **key)
         return
     res = v["res"]
@@ -274,7 +288,7 @@ def execute(case) -> Outcome:
     o.steps += base["stats"]["pricing_calls"]
     if base["stats"]["peer_unusual"]:
         o.fault("peer_unusual", base["stats"]["peer_unusual"])
-    if base["skipped"] or base["exc"] is not None:
+    if base["skipped"] or base["exc"] is not None or base["res"] is None:
         o.trace = [case["solver"], case["mode"], summ]
         return o
     res = base["res"]
